@@ -109,8 +109,12 @@ class NonDominatedPriority(MOPriority):
         self.max_num_samples = max_num_samples
 
     def priority_unsafe(self, objectives: np.array) -> np.array:
-        return np.array(
-            nondominated_sort(
-                X=objectives, dim=self.dim, max_items=self.max_num_samples
-            )
+        # ``nondominated_sort`` returns the indices of the items in sorted order.
+        # The priority of an item is its position in this order (lower is picked
+        # first); items cut off by ``max_num_samples`` share the lowest priority
+        sorted_indices = nondominated_sort(
+            X=objectives, dim=self.dim, max_items=self.max_num_samples
         )
+        priorities = np.full(objectives.shape[0], len(sorted_indices), dtype=int)
+        priorities[sorted_indices] = np.arange(len(sorted_indices))
+        return priorities
